@@ -388,6 +388,8 @@ def run(ctx, chk, tier="quick"):
     )
     chk.assumptions = ["numpy cumsum labelling in get_true_interval_masks yields maximal interior runs (leading run: C01.O3)",
                        "a rain mask has one element per time step, a jump mask one per increment (np.diff)"]
+    from ..sqlrules import conflict_clauses as _conflict_clauses
+    _conflict_clauses(ctx, chk, "C03.O6", ("classify",), "classify", 'a second classification with other thresholds keeps storms and rises of the first run that are not runs under the stored thresholds')
     from ..sqlrules import lossy_functions
     lossy_functions(ctx, chk, "C03.O1", ("classify",), "classify", "thresholds are compared with the stored intensities and levels, not with rounded ones")
     roles = threshold_roles(ctx)
